@@ -11,7 +11,7 @@ FILES = ["board/src/board.rs", "engine_core/src/engine/search.rs", "engine_core/
          "engine_core/src/engine/move_order.rs", "uci/src/uci/parser.rs", "uci/src/uci/console.rs", "uci/src/uci.rs", "core/src/fen.rs",
          "core/src/constants/square.rs", "board/src/board/precalculated/magic.rs", "board/src/board/precalculated/nonmagic.rs",
          "lichess_api/src/api/bot_game_state_response.rs", "lichess_api/src/api/bot_event_response.rs", "engine_core/src/engine.rs"]
-TRANSFORMS = ["flip-if", "swap-cmp", "nest-and", "temp-cond", "compound-assign", "while-to-loop"]
+TRANSFORMS = ["flip-if", "swap-cmp", "nest-and", "temp-cond", "compound-assign", "while-to-loop", "or-split", "demorgan", "cond-closure", "if-to-match"]
 
 
 def run_one(job):
